@@ -152,6 +152,9 @@ fn replay(rf: &ReplayFile) -> Vec<(String, String)> {
             };
             r.map(|d| vec![(rf.clause.clone(), d)]).unwrap_or_default()
         }
+        Case::Custom { mode, params } if mode == "keyapi" => checks::c12::replay_keyapi(params)
+            .map(|d| vec![(rf.clause.clone(), d)])
+            .unwrap_or_default(),
         _ => vec![],
     }
 }
